@@ -27,10 +27,11 @@ import (
 func main() {
 	prop := flag.String("prop", "C02", "C02|C13 (only changes the report header)")
 	only := flag.String("only", "", "run only the schedule with this id (replay)")
-	families := flag.String("family", "", "comma separated list of schedule families to run (default: all): exhaustive scripted slow exact mtu muxstall closerace random baseline big serverfirst")
+	families := flag.String("family", "", "comma separated list of schedule families to run (default: all): exhaustive scripted slow exact mtu muxstall deadline closeloss statelessclose closerace random baseline big serverfirst")
 	serverFirst := flag.Int("serverfirst", 0, "number of extra fault-free schedules in which the server application writes >= 17 fragments immediately after Accept (race fixed by fixes/C02-server-write-before-open-response.diff; oracle sig server-write-overtakes-open-response)")
 	mutate := flag.String("mutate", "", "self-test of the oracle: corrupt the recorded observation of the first suitable schedule (retx|ack|gap|bytes)")
 	r := vh.Start("c02")
+	propC13 = strings.EqualFold(*prop, "C13")
 	if strings.EqualFold(*prop, "C13") {
 		r.Rep.Driver = "c02(C13)"
 	}
@@ -234,6 +235,28 @@ func main() {
 	}
 	for i := 0; i < nMux; i++ {
 		runOne(g.muxStall(i%2 == 0))
+	}
+	// write deadlines shorter than / around / longer than the time a Write waits behind the output loop
+	nDl := 6
+	if thorough {
+		nDl = 45
+	}
+	for i := 0; i < nDl; i++ {
+		runOne(g.deadline(i))
+	}
+	// Close with data in flight and a lost fragment in front of the close request
+	nCl := 16
+	if thorough {
+		nCl = 60
+	}
+	for i := 0; i < nCl; i++ {
+		runOne(g.closeLoss())
+	}
+	// witness of the recorded C13 finding (thorough tier of C13 only, or -family statelessclose)
+	if (thorough && propC13) || strings.Contains(","+*families+",", ",statelessclose,") {
+		for _, d := range []int{6000, 8000, 10500} {
+			runOne(g.statelessClose(d))
+		}
 	}
 	// Close while a Write is in progress and the output loop is inside a slow WriteTo
 	nRace := 600
